@@ -109,12 +109,13 @@ func (f Flags) String() string {
 
 // Hints tell DrawFlags what the input allows.
 type Hints struct {
-	OpenConfigStyle bool // compression (and therefore path structs) is inside the domain
-	UnionDefault    bool // a union-typed leaf has a default: wrapper unions are refused by gogen, so simple unions are forced
-	MinStructs      int  // lower bound on the number of generated structs (limits -structs_split_files_count)
-	NeedSchema      bool // never draw -include_schema=false
-	NoPathStructs   bool
-	ForceFakeRoot   bool
+	OpenConfigStyle    bool // compression (and therefore path structs) is inside the domain
+	UnionDefault       bool // a union-typed leaf has a default: wrapper unions are refused by gogen, so simple unions are forced
+	MinStructs         int  // lower bound on the number of generated structs (limits -structs_split_files_count)
+	NeedSchema         bool // never draw -include_schema=false
+	NoPathStructs      bool
+	ForceFakeRoot      bool
+	ForceTypedefDefmod bool // the schema has same-named enumerated typedefs in two modules and the open finding about their conflation is steered around: always -typedef_enum_with_defmod
 }
 
 // DrawFlags draws a consistent generator flag set.
@@ -143,7 +144,7 @@ func DrawFlags(t *rapid.T, h Hints) Flags {
 	f.LeafGetters = bit("leaf_getters", 50)
 	f.LeafSetters = bit("leaf_setters", 40)
 	f.PopulateDefaults = bit("populate_defaults", 55)
-	f.TypedefEnumWithDefmod = bit("typedef_defmod", 40)
+	f.TypedefEnumWithDefmod = bit("typedef_defmod", 40) || h.ForceTypedefDefmod
 	f.EnumSuffixSimpleUnion = f.TypedefEnumWithDefmod && bit("enum_suffix", 50)
 	f.SkipEnumDedup = bit("skip_dedup", 15)
 	f.Annotations = bit("annotations", 20)
